@@ -425,7 +425,96 @@ func checkC14(c *core.Ctx) error {
 		checkDistEntry(c, p, d, e)
 	}
 	checkWrappers(c, p, d)
+	checkIid(c, p, d)
 	return nil
+}
+
+// checkIid (R6): the i.i.d. product vectorDistribution.ScalarIid built around a symbolic normal distribution with n = 2
+// (3 in the thorough tier) components has the log-density sum_i log f(x_i).
+func checkIid(c *core.Ctx, ps *packages.Package, d *declIndex) {
+	pv := c.Pkg("statistics/vectorDistribution")
+	cons := "statistics/vectorDistribution.ScalarIid"
+	if pv == nil {
+		c.Unknown("C14.R6", cons, "package found", 0, "package statistics/vectorDistribution not found")
+		return
+	}
+	var normal *distEntry
+	for i := range scalarDistTable {
+		if scalarDistTable[i].T == "NormalDistribution" {
+			normal = &scalarDistTable[i]
+		}
+	}
+	nctor := findFuncDecl(ps, "NewNormalDistribution")
+	ctor := findFuncDecl(pv, "NewScalarIid")
+	lp := findMethodDecl(pv, "ScalarIid", "LogPdf")
+	if normal == nil || nctor == nil || ctor == nil || lp == nil {
+		c.Unknown("C14.R6", cons, "constructor and LogPdf found", 0, "NewScalarIid, LogPdf or the inner family not found")
+		return
+	}
+	inner, _, und := runConstructor(ps, d, nctor)
+	if und != nil || len(inner) == 0 {
+		c.Unknown("C14.R6", cons, "inner family interpreted", nctor.Pos(), "constructor of the inner family could not be interpreted")
+		return
+	}
+	n := int64(2)
+	if c.Tier == "thorough" {
+		n = 3
+	}
+	cfg := vn.Config{Pkg: pv, TypeName: "Real64", Spec: distSpec, InlineOps: inlineOps, Decl: d.find, ParamNames: true, MaxDepth: 6, UnrollConst: true,
+		ParamValues: map[string]vn.Value{"distribution": vn.DeepCopy(inner[0].obj, nil), "n": sym.Int(n)}}
+	paths, u := vn.Run(cfg, ctor)
+	if u != nil {
+		c.Unknown("C14.R6", cons, "constructor interpreted", u.Pos, "left the interpreter's idiom set: "+u.Msg)
+		return
+	}
+	var obj *vn.StructVal
+	for _, pa := range paths {
+		if t, ok := pa.Ret.(vn.Tuple); ok && len(t) == 2 {
+			if o, isObj := t[0].(*vn.StructVal); isObj {
+				obj = o
+			}
+		}
+	}
+	if obj == nil {
+		c.Unknown("C14.R6", cons, "constructor has a success path", ctor.Pos(), "no success path")
+		return
+	}
+	cfg2 := vn.Config{Pkg: pv, TypeName: "Real64", Spec: distSpec, InlineOps: inlineOps, Decl: d.find, ParamNames: true, MaxDepth: 6, UnrollConst: true,
+		RecvStruct: obj, RecvFresh: true}
+	lpaths, u := vn.Run(cfg2, lp)
+	if u != nil {
+		c.Unknown("C14.R6", cons, "LogPdf interpreted", u.Pos, "left the interpreter's idiom set: "+u.Msg)
+		return
+	}
+	P := map[string]*sym.Term{"mu": sym.Sym("mu"), "sigma": sym.Sym("sigma")}
+	f := normal.variants[0].formula
+	want := sym.Zero()
+	for i := int64(0); i < n; i++ {
+		want = sym.Add(want, f(P, sym.Fn("elem", sym.Sym("x"), sym.Int(i))))
+	}
+	nval := 0
+	for _, pa := range lpaths {
+		if pa.Panic {
+			continue
+		}
+		if _, isErr := pa.Ret.(*vn.ErrVal); isErr {
+			continue
+		}
+		var res *sym.Term
+		for _, pvl := range pa.Params {
+			if l, ok := pvl.(*vn.Loc); ok {
+				res = l.Val
+				break
+			}
+		}
+		if res == nil || res.DependsOn(sym.SymAtom("-Inf")) {
+			continue
+		}
+		nval++
+		c.Check(sym.Equal(res, want), "C14.R6", cons, fmt.Sprintf("LogPdf is the sum of the %d component log-densities [%s]", n, shortConds(pa.CondString())), lp.Pos(),
+			"the product distribution evaluates to "+res.String()+" but the sum of the component log-densities is "+want.String())
+	}
+	c.Check(nval > 0, "C14.R6", cons, "LogPdf has a value-returning path", lp.Pos(), "no value-returning path")
 }
 
 // checkWrappers (R6): the wrapped distributions apply the change of variables. The wrapper is built around a symbolic
